@@ -249,7 +249,8 @@ pub fn gen(prop: &str, seed: u64, stack: bool) -> RunDesc {
         .set("payload_words", payload_words)
         .set("drop_in_tls", drop_in_tls)
         .set("link_tag", link_tag)
-        .set("revive_head", revive_head)
+        .set("revive_head", if SHAPES[shape as usize] == "right-spine" && !stack && Rng::new(seed ^ 0x5E).chance(0.6) { 0 } else { revive_head })
+        .set("shared_sentinel", SHAPES[shape as usize] == "right-spine" && !stack && Rng::new(seed ^ 0x5E).chance(0.6))
         .set("noise_only_advances", advancers_only)
         .set("stack_kib", stack_kib)
         .set("profile", profile)
@@ -315,7 +316,7 @@ fn node_inner<const W: usize>(id: u64, c0: Rc<CNode<W>>, c1: Rc<CNode<W>>, write
 }
 
 /// Build a structure of n nodes; returns (head, held interior node or null).
-fn build<const W: usize>(shape: &str, n: u64, writer: u64, hold_at: i64, weak_at: &[u64], weaks: &mut Vec<(u64, circ::Weak<CNode<W>>)>) -> (Rc<CNode<W>>, Rc<CNode<W>>) {
+fn build<const W: usize>(shape: &str, n: u64, writer: u64, hold_at: i64, weak_at: &[u64], weaks: &mut Vec<(u64, circ::Weak<CNode<W>>)>, sentinel: &Rc<CNode<W>>) -> (Rc<CNode<W>>, Rc<CNode<W>>) {
     let mut held = Rc::null();
     match shape {
         "binary-tree" | "wide-tree" => {
@@ -348,7 +349,10 @@ fn build<const W: usize>(shape: &str, n: u64, writer: u64, hold_at: i64, weak_at
             let mut head: Rc<CNode<W>> = Rc::null();
             for i in (0..n).rev() {
                 let right = shape == "right-spine" || i % 2 == 1;
-                head = if right { node(i, Rc::null(), head, writer) } else { node(i, head, Rc::null(), writer) };
+                // (with a sentinel: the first edge of every spine node leads to one shared node that
+                // stays owned elsewhere)
+                let other = if sentinel.is_null() { Rc::null() } else { sentinel.clone() };
+                head = if right { node(i, other, head, writer) } else { node(i, head, other, writer) };
             }
             (head, held)
         }
@@ -428,10 +432,16 @@ fn build<const W: usize>(shape: &str, n: u64, writer: u64, hold_at: i64, weak_at
     }
 }
 
+/// extra user activity between collection rounds (set per run)
+static ROUND_HOOK: std::sync::Mutex<Option<Box<dyn Fn() + Send>>> = std::sync::Mutex::new(None);
+
 fn round() {
     let g = circ::cs();
     g.flush();
     drop(g);
+    if let Some(f) = ROUND_HOOK.lock().unwrap().as_ref() {
+        f();
+    }
 }
 
 struct Report {
@@ -533,7 +543,7 @@ fn destroyer<const W: usize>(desc: &RunDesc, out: &mut Vec<(String, String)>, fa
     let mut ref_span = 0usize;
     if stack_check {
         // (always payload-free nodes: the plateau must not depend on what a node carries inline)
-        let (h, _) = build::<0>("chain", 2048, 1, -1, &[], &mut Vec::new());
+        let (h, _) = build::<0>("chain", 2048, 1, -1, &[], &mut Vec::new(), &Rc::null());
         for _ in 0..5 {
             round();
         }
@@ -555,8 +565,17 @@ fn destroyer<const W: usize>(desc: &RunDesc, out: &mut Vec<(String, String)>, fa
     user_yield();
     let weak_at: Vec<u64> = p.geta("weak_positions").iter().filter_map(|x| x.as_u64()).collect();
     let mut weaks: Vec<(u64, circ::Weak<CNode<W>>)> = Vec::new();
-    let (head, held) = build(&shape, n, writer, hold_at, &weak_at, &mut weaks);
+    // shared sentinel (right-spine only): every spine node's first edge leads to it, and between
+    // collection rounds somebody clones and drops an owner of it, so its stamp is always recent.
+    // It stays owned, so it has nothing to do with how fast the spine is reclaimed.
+    let mut sentinel: Rc<CNode<W>> = if p.getb("shared_sentinel") && shape == "right-spine" { node(3_000_000_000, Rc::null(), Rc::null(), writer) } else { Rc::null() };
+    let (head, held) = build(&shape, n, writer, hold_at, &weak_at, &mut weaks, &sentinel);
     let total = CREATED.load(Relaxed);
+    if !sentinel.is_null() {
+        let s2 = sentinel.clone();
+        *ROUND_HOOK.lock().unwrap() = Some(Box::new(move || drop(s2.clone())));
+        sim().probe("chain_with_shared_sentinel");
+    }
     for _ in 0..p.getu("age_rounds") {
         round();
     }
@@ -675,8 +694,15 @@ fn destroyer<const W: usize>(desc: &RunDesc, out: &mut Vec<(String, String)>, fa
         }
         fam.put("rounds", rounds);
     } else {
-        let r = release_and_wait(head, total, max_rounds);
+        let own = if sentinel.is_null() { total } else { total - 1 };
+        let r = release_and_wait(head, own, max_rounds);
         let adv = r.e1 - r.e0;
+        if !sentinel.is_null() {
+            // now the sentinel itself
+            *ROUND_HOOK.lock().unwrap() = None;
+            let s = std::mem::replace(&mut sentinel, Rc::null());
+            let _ = release_and_wait(s, total, max_rounds);
+        }
         fam.put("advances", adv);
         fam.put("rounds", r.rounds);
         fam.put("bound", bound(total));
